@@ -500,7 +500,7 @@ theorem masked_eval (ρ : Env) (b : BusyRef) (start : Int) (end_ : Option Int)
   rcases hmask with ⟨hs0, hle⟩ | ⟨en, hen, hge⟩
   · refine ⟨Fml.le b.e (numT start), ?_, by simpa [Fml.eval, Term.eval, numT, he] using hle⟩
     exact List.mem_append_left _ (by
-      have : start > 0 := hs0
+      have : start ≥ 0 := hs0
       rw [if_pos this]; exact List.mem_singleton.2 rfl)
   · refine ⟨Fml.ge b.s (numT en), ?_, by simpa [Fml.eval, Term.eval, numT, hs] using hge⟩
     exact List.mem_append_right _ (by subst hen; exact List.mem_singleton.2 rfl)
@@ -656,7 +656,7 @@ theorem resMeaningF_sound (c : Nat) (b : CBody) (ρ : Env) (h : Sat ρ (b.raw c)
       · rcases hmask with ⟨hs0, hle⟩ | ⟨en, hen, hge⟩
         · refine ⟨Fml.le bz.e (numT start), ?_, by simpa [Fml.eval, Term.eval, numT, he] using hle⟩
           exact List.mem_append_left _ (List.mem_append_right _ (by
-            have : start > 0 := hs0
+            have : start ≥ 0 := hs0
             rw [if_pos this]; exact List.mem_singleton.2 rfl))
         · refine ⟨Fml.ge bz.s (numT en), ?_, by simpa [Fml.eval, Term.eval, numT, hs] using hge⟩
           exact List.mem_append_right _ (by subst hen; exact List.mem_singleton.2 rfl)
